@@ -746,7 +746,7 @@ class RestAPI(object):
 
                     if logging_level not in {"OFF", "ALL", "ERROR", "FATAL"}:
                         self.logger.error(
-                            "RestAPI CreateStateMachine: Invalid logging configuration for State Machine '{}'.".format(name)
+                            "RestAPI UpdateStateMachine: Invalid logging configuration for State Machine '{}'.".format(state_machine_arn)
                         )
                         return aws_error("InvalidLoggingConfiguration"), 400
 
@@ -764,7 +764,7 @@ class RestAPI(object):
                                 isinstance(destinations , list) and
                                 len(destinations) == 1):
                             self.logger.error(
-                                "RestAPI CreateStateMachine: Invalid logging configuration for State Machine '{}'.".format(name)
+                                "RestAPI UpdateStateMachine: Invalid logging configuration for State Machine '{}'.".format(state_machine_arn)
                             )
                             return aws_error("InvalidLoggingConfiguration"), 400
 
